@@ -1891,6 +1891,27 @@ mod tv {
                         }
                         Ok(s)
                     }
+                    "T3EVALA" => {
+                        // T3EVALA h <assignment>: one letter per variable (t / u / f); any number of variables
+                        let n = core.nvars() as usize;
+                        let a = tok[2].as_bytes();
+                        if a.len() != n {
+                            return Err("skip".into());
+                        }
+                        let f = core.get(tok[1])?;
+                        let v = f.eval((0..n).map(|v| {
+                            (v as VarNo, match a[v] {
+                                b't' => Some(true),
+                                b'u' => None,
+                                _ => Some(false),
+                            })
+                        }));
+                        Ok(format!("ev3 {}", match v {
+                            Some(false) => 'F',
+                            None => 'U',
+                            Some(true) => 'T',
+                        }))
+                    }
                     "T3FILL" => {
                         // TDDx (C05, C14): capacity probe for ternary nodes: every step creates exactly ONE
                         // node and leaves no garbage; all results are kept alive until the manager reports
